@@ -44,9 +44,11 @@ type ProviderCache struct {
 
 	needsRefresh atomic.Bool
 	// refreshing is true while a Refresh holds writeLock.
-	refreshing   atomic.Bool
-	refreshIn    time.Duration
-	refreshTimer *time.Timer
+	refreshing atomic.Bool
+	// refreshesCompleted counts the refreshes that completed without error.
+	refreshesCompleted atomic.Uint64
+	refreshIn          time.Duration
+	refreshTimer       *time.Timer
 }
 
 // cacheInfo contains writable cache info.
@@ -258,29 +260,32 @@ func (pc *ProviderCache) Len() int {
 }
 
 // Refresh initiates an immediate cache refresh.
-func (pc *ProviderCache) Refresh(ctx context.Context) error {
+func (pc *ProviderCache) Refresh(ctx context.Context) (err error) {
 	select {
 	case pc.writeLock <- struct{}{}:
 	default:
-		if pc.refreshing.Load() {
-			// Refresh already in progress, wait for it to finish.
-			select {
-			case pc.writeLock <- struct{}{}:
-				<-pc.writeLock
-			case <-ctx.Done():
-			}
-			return ctx.Err()
-		}
-		// The write lock is held by a lookup of a missing provider, not by
-		// a refresh. Wait for the lookup to finish and then refresh.
+		// Either a refresh is already in progress, or the write lock is held
+		// by a lookup of a missing provider. Wait for it to finish.
+		waitRefresh := pc.refreshing.Load()
+		completed := pc.refreshesCompleted.Load()
 		select {
 		case pc.writeLock <- struct{}{}:
 		case <-ctx.Done():
 			return ctx.Err()
 		}
+		if waitRefresh && pc.refreshesCompleted.Load() != completed {
+			// The refresh that was in progress completed.
+			<-pc.writeLock
+			return ctx.Err()
+		}
+		// The lock was held by a lookup, or the refresh that was in progress
+		// failed or was canceled. Do the refresh now.
 	}
 	pc.refreshing.Store(true)
 	defer func() {
+		if err == nil {
+			pc.refreshesCompleted.Add(1)
+		}
 		pc.refreshing.Store(false)
 		<-pc.writeLock
 	}()
